@@ -64,7 +64,7 @@ func All(ns []*Node) []*Node {
 	return out
 }
 
-var lenDeltas = []int64{0, 1, -1, 8, -8, 7, -7, 16}
+var lenDeltas = []int64{1, -1, 2, -2, 3, -3, 4, -4, 5, -5, 6, -6, 7, -7, 8, -8, 9, -9, 11, -11, 13, -13, 16, -16}
 var lenAbs = []uint32{0, 1, 7, 8, 9, 1 << 31, 1<<32 - 1, 1<<32 - 8, 1<<32 - 7, 1<<32 - 9, 1 << 16, 1 << 20, 1 << 30, 4096, 4097}
 
 func clone(b []byte) []byte { return append([]byte(nil), b...) }
